@@ -4,6 +4,8 @@ import (
 	"fmt"
 	"testing"
 
+	"github.com/veraison/psatoken"
+
 	"pgregory.net/rapid"
 )
 
@@ -79,7 +81,7 @@ func baseValid(p Prof, variant int) *MClaims {
 }
 
 func TestC01_Sweep(t *testing.T) {
-	st := NewStats("C01", "TestC01_Sweep", "exhaustive single-claim sweeps on an otherwise valid set (3 backgrounds x 2 profiles): every byte-string length 0..80 for impl-id, boot-seed, nonce, inst-id, component value/signer; inst-id type byte 0..255 at length 33; lifecycle range ends and outside neighbours; complete single-edit neighbourhood of both certification-reference forms. Non-trivial = the swept value differs from the canned 32-byte/0x3000 values; distinct = (profile, background, claim, value class)")
+	st := NewStats("C01", "TestC01_Sweep", "exhaustive single-claim sweeps on an otherwise valid set (3 backgrounds x 2 profiles): every byte-string length 0..80 for impl-id, boot-seed, nonce, inst-id, component value/signer; inst-id type byte 0..255 at length 33; lifecycle range ends and outside neighbours; complete single-edit neighbourhood of both certification-reference forms plus every same-byte-length variant with non-ASCII decimal digits. Non-trivial = the swept value differs from the canned 32-byte/0x3000 values; distinct = (profile, background, claim, value class)")
 	st.Exhaustive = true
 	defer st.Flush(t)
 	run := func(m *MClaims, key string) {
@@ -208,6 +210,9 @@ func TestC01_Sweep(t *testing.T) {
 						try(base[:i]+ch+base[i:], fmt.Sprintf("ins%d/%q", i, ch))
 					}
 				}
+				for i, v := range multiByteDigitVariants(base) {
+					try(v, fmt.Sprintf("samebytelen-nonascii-digits/%d", i))
+				}
 			}
 			// VSI
 			for _, s := range []string{"", " ", "x", "\x00"} {
@@ -287,6 +292,104 @@ func TestC01_Product(t *testing.T) {
 		}
 		if msg != "" {
 			t.Fatalf("C01 violated: %s", msg)
+		}
+	})
+}
+
+// TestC01_AfterHistory: "the verdict depends on nothing else" - in particular
+// not on how the object came to hold its current content. A claims-set is
+// built VALID through the setters (and validated, read and encoded once), then
+// changed in place - component objects the caller still holds are overwritten,
+// exported claim fields are replaced - into the content of a second model; the
+// verdict and getters must be those of the second model.
+func TestC01_AfterHistory(t *testing.T) {
+	st := NewStats("C01", "TestC01_AfterHistory", "rapid: a valid claims-set is built through NewClaims+setters (or decoded), validated / read / encoded once, then changed IN PLACE into another model's content: one or more of the component objects the container still points to are overwritten field by field (valid or malformed), and/or all exported claim fields are replaced by those of a freshly drawn (valid or deviating) model; oracle = the independent model of the FINAL content (verdict + getters). Non-trivial = the final content is invalid or differs from the initial one in a component; distinct = final class vector + kind of history")
+	st.Require = []string{"component-overwritten", "fields-replaced", "final-invalid", "final-valid", "route=setters", "route=decoded"}
+	defer st.Flush(t)
+	rapid.Check(t, func(t *rapid.T) {
+		p := drawProf(t)
+		a := GenValid(t, p, true)
+		if p == P1 {
+			a.Profile = sp(P1Name)
+		}
+		if len(a.Comps) == 0 && genBool.Draw(t, "forceComps") {
+			a.NoMeas = nil
+			a.Comps = drawValidComps(t, "sw")
+		}
+		route := rapid.SampledFrom([]string{"setters", "decoded"}).Draw(t, "route")
+		var c psatoken.IClaims
+		var err error
+		if route == "setters" {
+			c, err = a.BuildSetters()
+		} else {
+			c, err = psatoken.DecodeClaimsFromCBOR(a.WireBytes())
+		}
+		if err != nil {
+			t.Fatalf("VERIF-INFRA: %v", err)
+		}
+		// first life: everything is used once
+		if verr := c.Validate(); verr != nil {
+			t.Fatalf("C01 violated: valid set (%s route) rejected: %v [%s]", route, verr, a.ClassVector())
+		}
+		_ = Observe(c)
+		final := a.Clone()
+		cls := []string{"route=" + route}
+		// second life, step 1: overwrite component objects in place
+		if scs, gerr := c.GetSoftwareComponents(); gerr == nil && len(scs) > 0 && rapid.IntRange(0, 3).Draw(t, "touchcomp") > 0 {
+			n := rapid.IntRange(1, min(len(scs), 3)).Draw(t, "ntouch")
+			for k := 0; k < n; k++ {
+				i := rapid.IntRange(0, len(scs)-1).Draw(t, "compidx")
+				nc := drawComp(t, genBool.Draw(t, "comp.valid"), "newcomp")
+				ptr, ok := scs[i].(*psatoken.SwComponent)
+				if !ok || ptr == nil {
+					t.Fatalf("VERIF-INFRA: unexpected component type %T", scs[i])
+				}
+				*ptr = *libComp(nc)
+				final.Comps[i] = nc
+			}
+			cls = append(cls, "component-overwritten")
+		}
+		// step 2: replace the exported claim fields by another model's
+		if rapid.IntRange(0, 2).Draw(t, "replacefields") == 0 {
+			b := GenAny(t, p)
+			if lit, ok := b.BuildLiteral(); ok {
+				// keep the component container (and its history) unless the
+				// new model has no list
+				keep := anySwContainer(c)
+				keepComps := final.Comps
+				overwriteInPlace(c, lit)
+				final = b.Clone()
+				if len(keepComps) > 0 && !b.CompsNil && len(b.Comps) > 0 && genBool.Draw(t, "keepContainer") {
+					switch x := c.(type) {
+					case *psatoken.P1Claims:
+						x.SwComponents = keep
+					case *psatoken.P2Claims:
+						x.SwComponents = keep
+					}
+					final.Comps = keepComps
+				}
+				cls = append(cls, "fields-replaced")
+			}
+		}
+		verr := c.Validate()
+		if (verr == nil) != final.Valid() {
+			t.Fatalf("C01 violated: after an in-place change (%v) Validate() = %v but the content now is valid=%v (offending %v): the verdict depends on the object's history\n  before [%s]\n  now    [%s]", cls, verr, final.Valid(), final.Offending(), a.ClassVector(), final.ClassVector())
+		}
+		if d := checkGettersAgainstModel(c, final, false); d != "" {
+			t.Fatalf("C01 violated: after an in-place change (%v): %s\n  now [%s]", cls, d, final.ClassVector())
+		}
+		if final.Valid() {
+			cls = append(cls, "final-valid")
+		} else {
+			cls = append(cls, "final-invalid")
+		}
+		key := ""
+		if !final.Valid() || len(cls) > 2 {
+			key = final.ClassVector() + "|" + fmt.Sprint(cls)
+		}
+		st.Case(key, cls...)
+		if key != "" && st.WantSample() {
+			st.Sample(map[string]any{"history": cls, "final": final.ClassVector()})
 		}
 	})
 }
